@@ -510,7 +510,7 @@ def _source_list_by_evaluation(ctx, mi, opts, scope, av, call) -> Optional[List[
     else:
         return None
     diffs: List[str] = []
-    for src in ("m.i;sub/b.i;c.d.i", "only.i", "a.i;x/../b.i;a.i;z.i"):
+    for src in ("m.i;sub/b.i;c.d.i", "only.i", "a.i;x/../b.i;a.i;z.i", "main.i;extra files/geo.i;more/slam.i", "UPPER.i;b,c.i;d e.i"):
         args = SampleObj({o["dest"]: ("" if "store_true" not in unparse(o["kw"].get("action", ast.Constant(""))) else False) for o in opts.values()})
         args["src"] = src
         for k_ in ("is_submodule",):
